@@ -291,6 +291,9 @@ pub fn gen(tier: &str, seed: u64, out: &mut dyn FnMut(Value)) {
             out(json!({"op": "num_out", "ns": chunk, "tag": "out of the value domain: TryFrom<Number>, is_int / is_uint / is_float", "nt": true}));
         }
     }
+    // values as rules see them: scans over events served by derived getters (an optional is its inner value, also for
+    // what a longer path finds or does not find inside it)
+    crate::props::engine::gen_derived(&mut rng, if thorough { 3000 } else { 400 }, "conversions seen through scans of derived events", out);
     // text, paths, options
     let ss = ["", "a", "C:\\Windows\\System32", "/tmp/a\\b", "\\", "\\\\host\\share\\", "a/b\\c/d", "//", "/./x/../y", "~/x", "a\tb", "/bin/sh\0", "\0", "a\0\0", "\0a", " a ", "/bin/ls", "\u{e9}\u{10ffff}", "none", "42", " spaced ", "a\nb", "\"q\"", "8.8.8.8"];
     out(json!({"op": "textconv", "ss": ss, "tag": "text / path / Option", "nt": true}));
